@@ -6,11 +6,10 @@ use std::sync::atomic::{AtomicBool, AtomicU64, Ordering};
 use arroy::{Database, Distance, Error, Reader, Writer};
 use heed::types::Bytes;
 use heed::{RoTxn, RwTxn};
-use rand::rngs::StdRng;
 use rand::SeedableRng;
 
 use crate::dump::{self, decode_index, raw_dump, IndexDump, RawDump};
-use crate::engine::{catch, in_pool, infra, violation, CaseStats, Fail, PanicInfo, TestEnv, DEFAULT_MAP};
+use crate::engine::{catch, infra, violation, CaseStats, Fail, PanicInfo, TestEnv, DEFAULT_MAP};
 use crate::forest;
 use crate::queries;
 use crate::spec::{BuildOpts, HistorySpec, IndexSpec, Metric, Op};
@@ -118,9 +117,15 @@ pub fn do_build<D: Distance>(
     let fired = AtomicBool::new(false);
     let overflow = AtomicBool::new(false);
     let cancel_at = b.cancel_at;
+    // structural worst case: <= ~1000 draws per tree node (4 centroid searches of 200 samples) and one
+    // per item per level; x5 margin
+    let rng_budget = std::sync::Arc::new(crate::engine::RngBudget {
+        draws: AtomicU64::new(0),
+        limit: bound.saturating_mul(50).saturating_add(2_000_000),
+    });
     let r = catch(|| {
-        in_pool(b.threads, || {
-            let mut rng = StdRng::seed_from_u64(b.rng_seed);
+        crate::engine::in_pool_budgeted(b.threads, rng_budget.clone(), || {
+            let mut rng = crate::engine::CountingRng::seed_from_u64(b.rng_seed);
             let mut builder = writer.builder(&mut rng);
             if let Some(n) = b.n_trees {
                 builder.n_trees(n);
@@ -153,6 +158,7 @@ pub fn do_build<D: Distance>(
     });
     let p = polls.load(Ordering::Relaxed);
     match r {
+        Err(pi) if pi.message.contains(crate::engine::RNG_BUDGET_PANIC) => BuildOutcome::NonTerminating { polls: u64::MAX },
         Err(pi) => BuildOutcome::Panic(pi),
         Ok(Ok(())) => {
             if overflow.load(Ordering::Relaxed) {
@@ -697,7 +703,11 @@ pub fn run_history<D: Distance>(spec: &HistorySpec, cfg: &RunCfg, st: &mut CaseS
                     if cfg.build_must_succeed {
                         return violation(
                             "build:non-terminating",
-                            format!("round {ri}: build polled the cancel callback {polls} times (> bound {bound}) without finishing: {b:?} on {n_items} items"),
+                            if polls == u64::MAX {
+                                format!("round {ri}: build drew more random numbers than {}x the structural worst case without finishing (endless loop that does not poll the cancel callback): {b:?} on {n_items} items", 250)
+                            } else {
+                                format!("round {ri}: build polled the cancel callback {polls} times (> bound {bound}) without finishing: {b:?} on {n_items} items")
+                            },
                         );
                     }
                     return Err(Fail::Discard("build did not terminate within the poll bound".into()));
